@@ -85,7 +85,10 @@ XercesDocumentWrapper::XercesDocumentWrapper(
     m_documentElement(0),
     m_nodeMap(theManager),
     m_navigatorAllocator(theManager, 25),
-    m_navigator(0),
+    // m_children keeps a reference to the navigator, so it must exist
+    // before m_children is constructed (binding *m_navigator while it was
+    // still null is undefined behaviour).
+    m_navigator(m_navigatorAllocator.create(this)),
     m_children(theXercesDocument->getChildNodes(),
                *m_navigator),
     m_nodes(theManager),
@@ -99,8 +102,7 @@ XercesDocumentWrapper::XercesDocumentWrapper(
     m_stringPool(theManager, threadSafe == true ? XercesLiaisonXalanDOMStringPool::create(theManager) : XalanDOMStringPool::create(theManager))
 {
     assert(theXercesDocument != 0);
-
-    m_navigator = m_navigatorAllocator.create(this);
+    assert(m_navigator != 0);
 
     if (m_mappingMode == false)
     {
